@@ -32,6 +32,7 @@ struct World {
     sub_order: Vec<(usize, bool)>, // (source, was every earlier source ended when it was subscribed?)
     late: bool, // sources may defer their greeting (profile L)
     op_prop: Option<&'static str>, // the operator-specific property that also covers Pull routing
+    resub: bool, // the second subscription of the same source value is running (scenario suffix R)
     cross: bool, // another member may act from inside a member's handler (members coupled behind the scenes)
 }
 struct SrcState { st: SrcSt, sink: Option<Sink>, subs: u32, err: Option<String>, name: String, emitted: u32, pulls: u32, answers: u32, greet_pulls: Option<u32> }
@@ -263,7 +264,7 @@ fn functional_checks(w: &W, op: &str) {
     let sink = &g.sinks[0];
     let ins: Vec<(usize, u32)> = g.emitted.iter().filter(|e| e.2).map(|e| (e.0, e.1)).collect();
     let vals: Vec<u32> = ins.iter().map(|e| e.1).collect();
-    let base = op.trim_end_matches(|c| c == 'L' || c == 'X' || c == 'P');
+    let base = op.trim_end_matches(|c| c == 'L' || c == 'X' || c == 'P' || c == 'R');
     let (prop, expected): (&str, Option<Vec<u32>>) = match base {
         "map" => ("C07", Some(vals.iter().map(|x| x + 100).collect())),
         "filter" => ("C07", Some(vals.iter().cloned().filter(|x| x % 2 == 0).collect())),
@@ -287,7 +288,13 @@ fn functional_checks(w: &W, op: &str) {
     if let Some(exp) = expected {
         let got = &sink.data;
         let is_prefix = got.len() <= exp.len() && got[..] == exp[..got.len()];
-        if !is_prefix { v.push((prop, format!("the sink received {:?}, which is not a prefix of the expected {:?}", got, exp))); }
+        if !is_prefix {
+            v.push((prop, format!("the sink received {:?}, which is not a prefix of the expected {:?}", got, exp)));
+            // in pull mode this is also the pipeline property: the puller sees another list than the list function gives
+            if g.pull_mode { v.push(("C06", format!("the puller received {:?}, which is not a prefix of the expected {:?}", got, exp))); }
+            // .. and, in a second subscription of the same source value, a dependence on the first one
+            if g.resub { v.push(("C13", format!("the second subscription received {:?}; subscribed alone it receives a prefix of {:?}", got, exp))); }
+        }
         else if sink.st == SinkSt::Live && got.len() != exp.len() && !g.pull_mode { v.push((prop, format!("the sink has received {:?} but {:?} is due", got, exp))); }
     }
     // C09: member k+1 is subscribed only after member k completed
@@ -336,7 +343,7 @@ fn share_checks(w: &W) {
 // ------------------------------------------------------------------ scenarios
 fn build(op: &str, w: &W) -> Source<u32> {
     let mk = |n: &str| { let j = new_source(w, n); puppet_source(w, j) };
-    let base = op.trim_end_matches(|c| c == 'L' || c == 'X' || c == 'P');
+    let base = op.trim_end_matches(|c| c == 'L' || c == 'X' || c == 'P' || c == 'R');
     match base {
         "map" => callbag::map(|x: u32| x + 100)(mk("a")),
         "filter" => callbag::filter(|x: &u32| x % 2 == 0)(mk("a")),
@@ -363,7 +370,7 @@ fn build(op: &str, w: &W) -> Source<u32> {
 }
 struct Outcome { violations: Vec<(String, String)>, log: Vec<String>, exhausted: Option<usize>, panicked: Option<String> }
 fn run(op: &str, tape: &[u8]) -> Outcome {
-    let w: W = Arc::new(Mutex::new(World { tape: tape.to_vec(), late: op.ends_with('L'), cross: op.ends_with('X'), pull_mode: op.ends_with('P'), op_prop: if op.starts_with("merge") { Some("C08") } else if op.starts_with("combine") { Some("C10") } else if op.starts_with("concat") { Some("C09") } else if op.starts_with("flatten") { Some("C11") } else { None }, ..Default::default() }));
+    let w: W = Arc::new(Mutex::new(World { tape: tape.to_vec(), late: sfx(op).contains('L'), cross: sfx(op).contains('X'), pull_mode: sfx(op).contains('P'), op_prop: if op.starts_with("merge") { Some("C08") } else if op.starts_with("combine") { Some("C10") } else if op.starts_with("concat") { Some("C09") } else if op.starts_with("flatten") { Some("C11") } else { None }, ..Default::default() }));
     let r = catch_unwind(AssertUnwindSafe(|| {
         if op == "share2" || op == "share3" {
             let j = new_source(&w, "a");
@@ -391,6 +398,7 @@ fn run(op: &str, tape: &[u8]) -> Outcome {
             return;
         }
         let source = build(op, &w);
+        let mut resubscribed = false;
         let k = new_sink(&w, "sink");
         log(&w, "sink subscribes".into());
         source(Message::Handshake(puppet_sink(&w, k)));
@@ -408,12 +416,35 @@ fn run(op: &str, tape: &[u8]) -> Outcome {
             }
             quiescent_checks(&w, true);
             functional_checks(&w, op);
+            // scenario suffix R (C13): once the first subscription is over on both sides, the SAME source value is
+            // subscribed again; the second subscription must behave as if it were the only one
+            if sfx(op).contains('R') && !resubscribed {
+                let over = { let g = w.lock().unwrap(); g.sinks[k].st != SinkSt::Live && g.sinks[k].st != SinkSt::NotGreeted && g.srcs.iter().all(|x| x.st != SrcSt::Live && x.st != SrcSt::Pending) };
+                if over {
+                    resubscribed = true;
+                    {
+                        let mut g = w.lock().unwrap();
+                        for x in g.srcs.iter_mut() { x.st = SrcSt::Idle; x.sink = None; x.err = None; x.emitted = 0; x.pulls = 0; x.answers = 0; x.greet_pulls = None; }
+                        let s = &mut g.sinks[k]; s.st = SinkSt::NotGreeted; s.tb = None; s.data.clear(); s.err = None; s.pulls = 0; s.attach_at = 0;
+                        g.emitted.clear(); g.sub_order.clear(); g.resub = true;
+                    }
+                    log(&w, "---- the first subscription is over: sink subscribes to the same source value again ----".into());
+                    source(Message::Handshake(puppet_sink(&w, k)));
+                    quiescent_checks(&w, true);
+                    functional_checks(&w, op);
+                }
+            }
         }
     }));
     let mut g = w.lock().unwrap_or_else(|e| e.into_inner());
     let panicked = r.err().map(|e| e.downcast_ref::<&str>().map(|s| s.to_string()).or_else(|| e.downcast_ref::<String>().cloned()).unwrap_or_else(|| "panic".into()));
     if let Some(p) = &panicked { g.violations.push(("C17".into(), format!("panic: {}", p))); }
     Outcome { violations: g.violations.clone(), log: g.log.clone(), exhausted: g.exhausted_opts, panicked }
+}
+/// the profile letters at the end of a scenario name (L late greeting, X cross-member activity, P pull mode, R re-subscription)
+fn sfx(op: &str) -> &str {
+    let base = op.trim_end_matches(|c| c == 'L' || c == 'X' || c == 'P' || c == 'R');
+    &op[base.len()..]
 }
 fn norm(s: &str) -> String {
     // compare violation texts up to peer names and numbers
